@@ -774,8 +774,9 @@ def sources_cell(P, A):
             if sig is not None:
                 break
             if ref.raised:
-                if not o.raised or type(o.exc) is not type(ref.exc):
-                    sig = '%s-does-not-refuse-like-MosFile' % k
+                # a document MosFile refuses is refused by every reader constructor too, and in the same way by all three
+                if not o.raised or type(o.exc) is not type(rd['reader-bytes'].exc):
+                    sig = '%s-does-not-refuse-like-the-other-readers' % k
             elif o.raised:
                 sig = '%s-raised-%s' % (k, type(o.exc).__name__)
             elif o.result is None or o.result.message_id != ref.result.message_id or o.result.mos_type is not type(ref.result):
